@@ -21,7 +21,7 @@
    unreadable: Proofs/C08_doc_examples.v, each agreeing with expat on the real writer's output).
    NOT proved: that expat / ElementTree agree with xml_read (trusted; compared by the check on every run, and on the
    examples); the per-segment conversion (4) for ISA and for composite-bearing segments of the shipped maps, whose
-   ids the existing lemma's hypothesis node_fits does not admit (the document theorem (5) covers them up to the
+   ids the existing lemma's hypothesis node_fits does not cover (the document theorem (5) covers them up to the
    segment trees, and the check converts them on every run). *)
 From Coq Require Import String.
 From PX.Lib Require Import Base PyStr Xml.
